@@ -39,7 +39,7 @@ for p in props:
         continue
     m['checks'].append({
         'property_id': pid,
-        'quick_cmd': f'bin/govc check --property {pid} --tier quick',
+        'quick_cmd': f'tools/check.sh --property {pid} --tier quick',
         'thorough_cmd': f'bin/govc check --property {pid} --tier thorough',
         'evidence_file': f'/verif/evidence/{pid}.json',
         'replay_cmd_template': 'bin/govc replay {path}',
